@@ -9,6 +9,10 @@ ALL = ["C%02d" % i for i in range(1, 21)]
 
 # property -> (level text, level note, design ref)
 CLAIMED = {
+    "C10": (
+        "Partial proof, scoped to the registry. Registry.add/Remove/get/getByID/GetPID, Context.GetPID and Engine.SpawnProc are verified from go/ssa in lock-invariant mode: every access to Registry.lookup happens under r.mu (write accesses under the write lock), and every critical section is one atomic transition of the abstract map id -> Processer, relative to the map as it was when the lock was acquired (all other threads' effects are havoced at Lock and at every call of a locked method). add: if the id is present the whole map is unchanged, nothing is started (the effect log holds exactly one Broadcast(ActorDuplicateIdEvent{PID}) and no ProcStart, hence no Producer call); otherwise exactly that id is inserted with the given processer, every other entry unchanged, and exactly one proc.Start() follows the unlock (log = [RegAdd, ProcStart]). Remove deletes exactly pid.ID; get/getByID return the registered processer or nil; GetPID/Context.GetPID look up kind+'/'+id resp. id and return that processer's PID or nil; SpawnProc has exactly the effects of add and returns the processer's PID. 'Exactly one of several concurrent spawns wins' follows from add's check-and-insert being one critical section (mutual exclusion assumed of sync.RWMutex). NOT covered: Engine.Spawn/newProcess (option handling, random id), that cleanup/Response.Result call Remove (C07/C11), liveness.",
+        "Assumed: sync.RWMutex gives mutual exclusion and a total order of critical sections; Processer.PID() is a stable function of the processer (abstract contract, pidof); PID objects are not mutated after creation; abstract contract of Processer.Start (returns normally, touches engine-private state only through the API); BroadcastEvent trusted to publish exactly its argument; map builtin model; SMT solvers sound.",
+        "DESIGN.md section 5 (C10) and section 10"),
     "C14": (
         "Every function of package ringbuffer (New, Push, Pop, PopN, Len) is verified from its go/ssa form against a full functional contract over the abstract queue view[k] = items[(head+1+k) % mod]: lock invariant (geometry of head/tail/len/mod), Push appends exactly one element and keeps the prefix for every buffer geometry including the grow-and-copy branch (loop invariant, unbounded), Pop/PopN return exactly the first min(n,len) elements and leave the rest shifted, report false exactly when empty, Len >= 0; all accesses to guarded fields happen under rb.mu. All obligations are discharged by SMT for all inputs, sizes and iteration counts.",
         "Assumed: a structure whose every critical section satisfies its sequential specification under one mutex is linearizable (textbook, Go memory model); integers mathematical (int64 overflow of mod*2 not modelled); gomod axioms for % on non-negative operands; SMT solvers sound.",
